@@ -1,9 +1,10 @@
 (* C08 — an attribute is one id-keyed table whichever way it is accessed.
    Statements only.  gen/AttrCfg.v is regenerated from /repo on every run. *)
+From Coq Require Import String.
 From Coq Require Import ZArith List Bool Arith Permutation Sorted.
 Import ListNotations.
-From FV.C08 Require Import Table Model Proofs.
-From FV.C08.gen Require Import AttrCfg.
+From FV.C08 Require Import Table Model Proofs ElemModel ElemProofs.
+From FV.C08.gen Require Import AttrCfg ElemTypes.
 
 (* a freshly constructed attribute (distinct ids) is one table *)
 Theorem C08_inv_init : forall (V : Type) l (rows : list V) gen tsf a,
@@ -121,6 +122,130 @@ Theorem C08_generate_elemental_attribute : forall (V W : Type) (bs : list (nat *
   /\ Forall (fun b => StronglySorted Z.lt (ids (snd b))) (egenerate bs tbl).
 Proof. intros. split; [apply egenerate_In | apply egenerate_sorted]. Qed.
 
+(* filter_with_ids of a collection: exactly the requested elements that exist,
+   each with its own type and connectivity, each exactly once, every block in
+   the order requested *)
+Theorem C08_collection_filter_exact : forall (V : Type) (bs : @blocks V) l,
+  NoDup (ids (flatten bs)) ->
+     (forall i t v, In (i, (t, v)) (flatten (efilter bs l)) <-> In i l /\ In (i, (t, v)) (flatten bs))
+  /\ (NoDup l -> NoDup (map fst bs) -> NoDup (ids (flatten (efilter bs l))))
+  /\ (forall t b, In (t, b) (efilter bs l) ->
+        ids b = filter (fun i => match lookup i (flatten bs) with
+                                 | Some (t', _) => Nat.eqb t' t | None => false end)
+                       (filter (fun i => memZ i (ids (flatten bs))) l)).
+Proof.
+  intros V bs l ND. split; [intros; apply efilter_In; exact ND|].
+  split; [apply efilter_nodup|apply efilter_block_order].
+Qed.
+
+(* ---- the collection as a dict {type name -> block} (ElemModel.v) ---- *)
+(* keys()/items() list every block of the dict exactly once, provided the table
+   of type names has no duplicate and the keys are in it *)
+Theorem C08_items_list_every_block_once : forall (V : Type) ts (d : @edict V),
+  NoDup ts -> NoDup (map fst d) -> (forall k, In k (map fst d) -> In k ts) ->
+  Permutation (items ts d) d /\ NoDup (keys ts d).
+Proof. intros V. exact (@items_perm V). Qed.
+
+(* _validate_keys: what it lets through, and when it raises *)
+Theorem C08_validate_keys : forall (V : Type) ts (d d' : @edict V),
+  validate_keys ts d = Some d' -> In "unknown"%string ts ->
+     (forall k, In k (map fst d') -> In k ts)
+  /\ map snd d' = map snd d
+  /\ (NoDup (map fst d) -> NoDup (map fst d'))
+  /\ ((forall k, In k (map fst d) -> In k ts) -> d' = d).
+Proof. intros V. exact (@validate_keys_spec V). Qed.
+
+Theorem C08_validate_keys_raises : forall (V : Type) ts (d : @edict V),
+  validate_keys ts d = None <->
+  (exists k, In k (map fst d) /\ ~ In k ts) /\ (List.length d <> 1)%nat.
+Proof. intros V. exact (@validate_keys_raises V). Qed.
+
+(* dict.update(new): keys stay distinct, blocks of `new` replace / are added *)
+Theorem C08_dict_update : forall (V : Type) (new d : @edict V),
+  NoDup (map fst d) ->
+     NoDup (map fst (dupdate d new))
+  /\ (forall k, In k (map fst (dupdate d new)) <-> In k (map fst d) \/ In k (map fst new))
+  /\ (NoDup (map fst new) -> forall t,
+        dget t (dupdate d new) = match dget t new with Some b => Some b | None => dget t d end).
+Proof. intros V. exact (@dupdate_spec V). Qed.
+
+(* _update_self on the dict: every element of every block exactly once, under
+   the *name* of its block; ascending when there are several blocks *)
+Theorem C08_named_summary_sorted_complete : forall (V : Type) ts (d : @edict V) s,
+  NoDup ts -> NoDup (map fst d) -> (forall k, In k (map fst d) -> In k ts) ->
+  update_self_named ts d = Some s ->
+     Permutation (kflatten d) (nzip3 s)
+  /\ NoDup (n_ids s)
+  /\ (List.length d <> 1%nat -> StronglySorted Z.lt (n_ids s))
+  /\ n_id2index s = enumerate (n_ids s)
+  /\ List.length (n_types s) = List.length (n_ids s) /\ List.length (n_data s) = List.length (n_ids s).
+Proof. intros V. exact (@named_summary_sorted_complete V). Qed.
+
+Theorem C08_named_summary_consistent : forall (V : Type) ts (d : @edict V) s k i t v,
+  NoDup ts -> NoDup (map fst d) -> (forall k, In k (map fst d) -> In k ts) ->
+  update_self_named ts d = Some s ->
+  nth_error (n_ids s) k = Some i -> nth_error (n_types s) k = Some t ->
+  nth_error (n_data s) k = Some v ->
+     lookup i (n_id2index s) = Some k
+  /\ (exists b, dget t d = Some b /\ In (i, v) b)
+  /\ (forall k', nth_error (n_ids s) k' = Some i -> k' = k).
+Proof. intros V. exact (@named_summary_consistent V). Qed.
+
+Theorem C08_named_summary_complete : forall (V : Type) ts (d : @edict V) s t b i v,
+  NoDup ts -> NoDup (map fst d) -> (forall k, In k (map fst d) -> In k ts) ->
+  update_self_named ts d = Some s -> In (t, b) d -> In (i, v) b ->
+  exists k, nth_error (n_ids s) k = Some i /\ nth_error (n_types s) k = Some t
+            /\ nth_error (n_data s) k = Some v.
+Proof. intros V. exact (@named_summary_complete V). Qed.
+
+Theorem C08_dict_type_ids : forall (V : Type) ts (d : @edict V) t l,
+  NoDup ts -> NoDup (map fst d) -> (forall k, In k (map fst d) -> In k ts) ->
+  (In (t, l) (dict_type_ids ts d) <-> exists b, In (t, b) d /\ l = ids b).
+Proof. intros V. exact (@dict_type_ids_spec V). Qed.
+
+(* the table of the tree under test (regenerated from its source) *)
+Theorem C08_element_types_table : NoDup element_types /\ In "unknown"%string element_types.
+Proof. split; [apply nodup_str_NoDup|apply mem_str_In]; vm_compute; reflexivity. Qed.
+
+(* ... hence, for the tree under test: whatever dict the caller constructs the
+   collection from and whatever dicts are merged in afterwards, the summary
+   lists every element of every block exactly once under a type name that is
+   a key of the collection *)
+Theorem C08_collection_tree_decided : forall (V : Type) (d0 : @edict V) upds d s,
+  build element_types d0 upds = Some d -> update_self_named element_types d = Some s ->
+     NoDup (map fst d) /\ (forall k, In k (map fst d) -> In k element_types)
+  /\ Permutation (items element_types d) d
+  /\ Permutation (kflatten d) (nzip3 s)
+  /\ NoDup (n_ids s)
+  /\ (List.length d <> 1%nat -> StronglySorted Z.lt (n_ids s))
+  /\ n_id2index s = enumerate (n_ids s)
+  /\ (forall k i t v, nth_error (n_ids s) k = Some i -> nth_error (n_types s) k = Some t ->
+        nth_error (n_data s) k = Some v ->
+        lookup i (n_id2index s) = Some k /\ exists b, dget t d = Some b /\ In (i, v) b).
+Proof.
+  intros V d0 upds d s B U. destruct C08_element_types_table as [Nts Unk].
+  destruct (build_ok element_types d0 upds d Unk B) as [Nd Sub].
+  destruct (named_summary_sorted_complete element_types d s Nts Nd Sub U) as [P [N [S [E _]]]].
+  repeat split; auto.
+  - apply (items_perm element_types d Nts Nd Sub).
+  - destruct (named_summary_consistent element_types d s k i t v Nts Nd Sub U H H0 H1) as [A _]. exact A.
+  - destruct (named_summary_consistent element_types d s k i t v Nts Nd Sub U H H0 H1) as [_ [A _]]. exact A.
+Qed.
+
+(* non-vacuity: blocks handed in out of table order with interleaved, unsorted,
+   large ids, one of them a ragged 'polyhedron' block, then an update *)
+Example C08_collection_nonvacuous :
+  let d0 : @edict (list Z) :=
+    [("polyhedron"%string, [(40, [11; 3; 7; 5; 2]); (12, [13; 17; 19; 23; 29; 31])]);
+     ("tet"%string, [(33, [11; 3; 7; 5]); (2000000000000, [3; 7; 5; 2])])]%Z in
+  let u : @edict (list Z) := [("hex"%string, [(25, [1; 2; 3; 4; 5; 6; 7; 8])])]%Z in
+  exists d s, build element_types d0 [u] = Some d /\ update_self_named element_types d = Some s /\
+    n_ids s = [12; 25; 33; 40; 2000000000000]%Z /\
+    n_types s = ["polyhedron"; "hex"; "tet"; "polyhedron"; "tet"]%string /\
+    keys element_types d = ["tet"; "hex"; "polyhedron"]%string /\
+    validate_keys element_types (("pt"%string, []) :: d0) = None.
+Proof. do 2 eexists. vm_compute. repeat split; reflexivity. Qed.
+
 (* a missing refresh is a violation: one-step witnesses computed by the model *)
 Theorem C08_inv_step_refuted : forall c,
   parent_refreshes_data c && overwrite_uses_setter c && frame_setter_refreshes_id2index c
@@ -172,3 +297,5 @@ Print Assumptions C08_inv_reachable.
 Print Assumptions C08_views_agree.
 Print Assumptions C08_summary_sorted_complete.
 Print Assumptions C08_tree_decided.
+Print Assumptions C08_collection_tree_decided.
+Print Assumptions C08_collection_filter_exact.
